@@ -91,6 +91,12 @@ def R(event, time):
     probes.LOG.append(('r',) + m_entry(event)[1:] + (time,))
 
 
+def R2(event, time):
+    if event.name == 'delayed event sent':
+        return
+    probes.LOG.append(('r2',) + m_entry(event)[1:] + (time,))
+
+
 def K():
     KSTATE['count'] += 1
     return KSTATE['count'] == KSTATE['target']
@@ -109,9 +115,9 @@ def prop_chart(kind, user_names):
         sc.add_state(FinalState('f'), 'p')
         sc.add_transition(Transition('s', 'f', event='timeout'))
         return sc
-    if kind == 'record':
+    if kind in ('record', 'record2'):
         for n in names + ['delayed event sent']:
-            sc.add_transition(Transition('s', None, event=n, action='R(event, time)'))
+            sc.add_transition(Transition('s', None, event=n, action='%s(event, time)' % ('R' if kind == 'record' else 'R2')))
     else:
         sc.add_state(FinalState('f'), 'p')
         for n in names:
@@ -120,7 +126,7 @@ def prop_chart(kind, user_names):
 
 
 def mk_prop(sc, clock=None):
-    return Interpreter(sc, clock=clock, initial_context={'R': R, 'K': K})
+    return Interpreter(sc, clock=clock, initial_context={'R': R, 'R2': R2, 'K': K})
 
 
 def expected_log(R0, spec_by, step, none_call_time):
@@ -182,6 +188,11 @@ def run_case(R0, hist, op, mode, target=None, user_names=()):
     if mode == 'clean':
         it.bind_property_statechart(prop_chart('record', user_names), interpreter_klass=mk_prop)
         it.bind_property_statechart(prop_chart('final', user_names), interpreter_klass=mk_prop)
+        # the older way of binding, still supported: an interpreter instance instead of a statechart
+        import warnings
+        with warnings.catch_warnings():
+            warnings.simplefilter('ignore', DeprecationWarning)
+            it.bind_property_statechart(mk_prop(prop_chart('record2', user_names)))
     if mode == 'final':
         KSTATE['target'] = target
         it.bind_property_statechart(prop_chart('final', user_names), interpreter_klass=mk_prop)
@@ -216,7 +227,7 @@ def plain_sig(R0, r):
                 tuple((R0.tid(ms.transition) if ms.transition else None, tuple(ms.exited_states),
                        tuple(ms.entered_states), tuple(ev_sig(e) for e in ms.sent_events)) for ms in st.steps))
     return (r['outcome'], body, tuple(r['it'].configuration),
-            [e for e in r['log'] if e[0] not in ('m', 'r')])
+            [e for e in r['log'] if e[0] not in ('m', 'r', 'r2')])
 
 
 def work(task):
@@ -246,7 +257,7 @@ def work(task):
             viol(ex, 'intrusive', 'monitored run differs from the unmonitored run: %r vs %r'
                  % (plain_sig(R0, clean)[:3], plain_sig(R0, plain)[:3]))
         log = clean['log']
-        unified = [e for e in log if e[0] != 'r']
+        unified = [e for e in log if e[0] not in ('r', 'r2')]
         exp = expected_log(R0, spec_by, clean['step'], clean['call_time'])
         if unified != exp:
             i = next((k for k, (a, b) in enumerate(zip(unified, exp)) if a != b), min(len(unified), len(exp)))
@@ -257,6 +268,11 @@ def work(task):
         rstream = [e for e in log if e[0] == 'r']
         step_time = clean['step'].time if clean['step'] is not None else clean['call_time']
         want_r = [('r',) + e[1:] + (step_time,) for e in mstream]
+        r2stream = [('r',) + e[1:] for e in log if e[0] == 'r2']
+        if r2stream != want_r and rstream == want_r:
+            i = next((k for k, (a, b) in enumerate(zip(r2stream, want_r)) if a != b), min(len(r2stream), len(want_r)))
+            viol(ex, 'property-stream', 'property statechart bound as an interpreter instance saw %s, expected %s '
+                 '(attributes + clock == step time %s)' % (r2stream[i:i + 1], want_r[i:i + 1], step_time))
         if rstream != want_r:
             i = next((k for k, (a, b) in enumerate(zip(rstream, want_r)) if a != b),
                      min(len(rstream), len(want_r)))
